@@ -419,12 +419,16 @@ class PeriodicGrid(Grid):
         # Minimal and maximal values of the integer coefficients used in
         # to construct all relevant integer linear combinations (``ilc``) of
         # lattice vectors to translate the center.
-        ilc_min = np.ceil(self._frac_intvls[:, 0] - frac_center - radius / self._spacings).astype(
-            int
-        )
-        ilc_max = np.floor(self._frac_intvls[:, 1] - frac_center + radius / self._spacings).astype(
-            int
-        )
+        # The bounds are widened by a small margin: the fractional coordinates of the center and
+        # of the grid points are rounded independently, and an extra translation is harmless
+        # because the ball query below filters by distance anyway.
+        margin = 1e-9
+        ilc_min = np.ceil(
+            self._frac_intvls[:, 0] - frac_center - radius / self._spacings - margin
+        ).astype(int)
+        ilc_max = np.floor(
+            self._frac_intvls[:, 1] - frac_center + radius / self._spacings + margin
+        ).astype(int)
 
         # C) Loop over all possible translations of the center
         # ----------------------------------------------------
